@@ -2,6 +2,9 @@
    reader lines of harness/drv_msgpack.cpp:
      r <kind> <pol> <op> [<int type>] <hexdata>        one call
      q <kind> <pol> <op,op,...> <hexdata>              a sequence of calls on one reader (int:<type>)
+     p <kind> <pol> <op,op,...> <hexdata>              the same; an exception is answered ERR <cat> <position of the
+                                                       reader after the throw> (kind s only: the string-reader model
+                                                       of MpModel.v carries no position at a throw)
    kind s: the stream-reader programs, run three times: on the in-memory reader, on the chunked reader
            model with chunk size 8 and with chunk size 256 (over the modelled seekable istream).  The
            three must agree (T_C10mp_stream_equals_memory); the common answer is printed, otherwise
@@ -83,7 +86,8 @@ let () =
       let line = input_line stdin in
       let t = Array.of_list (split_on ' ' line) in
       (try
-        if t.(0) = "r" || t.(0) = "q" then begin
+        if t.(0) = "r" || t.(0) = "q" || t.(0) = "p" then begin
+          let errpos = (t.(0) = "p") in
           let o = { o_mismatch = pol t.(2).[0]; o_overflow = pol t.(2).[1] } in
           let data = parse_hexbytes t.(Array.length t - 1) in
           let fuel = nat_of_int (List.length data + 1) in
@@ -95,13 +99,19 @@ let () =
                    | None -> (op, "")) (split_on ',' t.(3)) in
           let names = List.map fst specs in
           let ops = List.map (fun (a, b) -> rop_of a b) specs in
-          let show = function Ok l -> fmt_answers names l | Fault -> "FAULT" in
-          if t.(1) = "m" then
-            print_endline (fmt_answers names (str_run narrow widen data o ops))
-          else begin
-            let a_mem = show (mps_run_mem narrow widen (nat_of_int 256) data fuel o ops) in
-            let a_k8 = show (mps_run_bsr narrow widen (nat_of_int 8) (stream_of data true) fuel o ops) in
-            let a_k256 = show (mps_run_bsr narrow widen (nat_of_int 256) (stream_of data true) fuel o ops) in
+          let show = function
+            | Ok (l, pos) ->
+              let s = fmt_answers names l in
+              let threw = (match List.rev l with AErrOf _ :: _ -> true | _ -> false) in
+              if errpos && threw then s ^ " " ^ string_of_int (int_of_n pos) else s
+            | Fault -> "FAULT" in
+          if t.(1) = "m" then begin
+            if errpos then print_endline "UNSUPPORTED"
+            else print_endline (fmt_answers names (str_run narrow widen data o ops))
+          end else begin
+            let a_mem = show (mps_run_mem_pos narrow widen (nat_of_int 256) data fuel o ops) in
+            let a_k8 = show (mps_run_bsr_pos narrow widen (nat_of_int 8) (stream_of data true) fuel o ops) in
+            let a_k256 = show (mps_run_bsr_pos narrow widen (nat_of_int 256) (stream_of data true) fuel o ops) in
             if a_mem = a_k8 && a_mem = a_k256 then print_endline a_mem
             else Printf.printf "MODEL-SPLIT mem=[%s] k8=[%s] k256=[%s]\n" a_mem a_k8 a_k256
           end
